@@ -95,6 +95,7 @@ IsF(a, b) == a[1] = "float" \/ b[1] = "float"
 Undefined == <<"undefined">>     \* an operation outside the modelled domain
 
 BinOp(op, a, b) ==
+    IF ~(IsNum(a) /\ IsNum(b)) THEN Undefined ELSE
     CASE op = "+"  -> IF IsF(a, b) THEN <<"float", Q(a) + Q(b)>> ELSE IntV(a[2] + b[2])
       [] op = "-"  -> IF IsF(a, b) THEN <<"float", Q(a) - Q(b)>> ELSE IntV(a[2] - b[2])
       [] op = "*"  -> IF IsF(a, b)
@@ -124,6 +125,7 @@ ValEq(a, b) ==
 CmpOp(op, a, b) ==
     CASE op = "==" -> BoolV(ValEq(a, b))
       [] op = "!=" -> BoolV(~ValEq(a, b))
+      [] ~(IsNum(a) /\ IsNum(b)) -> Undefined
       [] op = "<"  -> BoolV(Q(a) < Q(b))
       [] op = "<=" -> BoolV(Q(a) <= Q(b))
       [] op = ">"  -> BoolV(Q(a) > Q(b))
@@ -131,7 +133,9 @@ CmpOp(op, a, b) ==
       [] OTHER -> Undefined
 
 UnOp(op, a) ==
-    CASE op = "-"   -> IF a[1] = "float" THEN <<"float", -a[2]>> ELSE IntV(-a[2])
+    CASE op = "not" -> BoolV(~Truthy(a))
+      [] ~IsNum(a)  -> Undefined
+      [] op = "-"   -> IF a[1] = "float" THEN <<"float", -a[2]>> ELSE IntV(-a[2])
       [] op = "+"   -> IF a[1] = "bool" THEN IntV(a[2]) ELSE a
       [] op = "not" -> BoolV(~Truthy(a))
       [] op = "~"   -> IF a[1] = "float" THEN Undefined ELSE IntV(-a[2] - 1)
